@@ -4,6 +4,7 @@ import JunoModel.C03.ProofsSys
 import JunoModel.C03.ProofsCasm
 import JunoModel.C03.ProofsPatch
 import JunoModel.C03.ProofsProgress
+import JunoModel.C03.ProofsLegacySys
 /-!
 C03 — property theorems (statements only; helper lemmas are in `Proofs*.lean`; statements about
 proposed patches that are not in the tree are in `ProofsPatch.lean` and are NOT obligations).
@@ -258,6 +259,38 @@ theorem legacy_system_storage_read (ops : List Op) (nd : Node LState)
   rcases h.2 with e | e
   · left; exact congrArg some e
   · right; exact congrArg some e
+
+/-- LEGACY BACKEND, existence of the system contracts 0x1/0x2 (class hash and nonce queries), no
+block draining a system contract: on the view of every block at which the contract has a non-zero
+slot, and on the head view when it has one now, both read 0. (Where it has none the legacy backend
+may answer 0 or not-found: a block that writes only zeros creates the record, a later revert of ANY
+block removes it again — the record is not a function of the chain. Invariant `LSys`: the record's
+height is at most the block that made the storage non-empty.) With `new_system_existence_nodrain`:
+wherever a system contract has a non-zero slot, both backends answer 0 for its class hash and nonce. -/
+theorem legacy_system_existence_nodrain (ops : List Op) (nd : Node LState)
+    (hrun : run legacyBackend (Node.init legacyBackend) ops = some nd)
+    (hok : OpsOK (fun ch d => d.WF ∧ NoDrainStep ch d) ops []) (hfr : OpsFresh ops [])
+    (a : Addr) (ha : isSystem a = true) :
+    (∀ n, n < nd.blocks.length → NonEmpty (absAt nd.chain n) a →
+      nd.read legacyBackend (.num n) (.classHash a) = some (.ok 0) ∧
+      nd.read legacyBackend (.num n) (.nonce a) = some (.ok 0)) ∧
+    (nd.blocks ≠ [] → NonEmpty (absOf nd.chain) a →
+      nd.read legacyBackend .head (.classHash a) = some (.ok 0) ∧
+      nd.read legacyBackend .head (.nonce a) = some (.ok 0)) := by
+  have hs := run_invariant' legacyBackend LSys (fun ch d => d.WF ∧ NoDrainStep ch d)
+    (fun ch s s' d hI hP hu => lsys_store ch s s' d hI hP hu)
+    (fun d rest s s' hI hr => lsys_revert true d rest s s' hI hr)
+    ops (Node.init legacyBackend) nd lsys_init hok hrun
+  have hidx := run_idxInv _ ops _ nd (idxInv_init _) hfr hrun
+  have h := lsys_existence nd.chain nd.st hs a ha
+  constructor
+  · intro n hn hne
+    simp only [Node.read, resolve_num _ nd hidx n hn]
+    exact ⟨congrArg some (h.1 n hne).1, congrArg some (h.1 n hne).2⟩
+  · intro hne hnz
+    have hemp : nd.blocks.isEmpty = false := by cases hb : nd.blocks <;> simp_all
+    simp only [Node.read, Node.resolve, hemp, Bool.false_eq_true, if_false]
+    exact ⟨congrArg some (h.2 hnz).1, congrArg some (h.2 hnz).2⟩
 
 /-- The two backends answer alike: the same history run on a legacy node and on a new node (any
 variant) gives the same answer for every retained block and every ordinary query. -/
@@ -626,6 +659,12 @@ example : OpsOK (fun ch d => d.WF ∧ NoDrainStep ch d) systemHistory [] ∧ Ops
   · intro a _ hk _
     simp only [List.map_cons, List.map_nil, List.mem_singleton] at hk
     subst hk; exact ⟨9, by decide⟩
+
+example : (run legacyBackend (Node.init legacyBackend) systemHistory).map
+    (fun nd => [nd.read legacyBackend (.num 0) (.classHash 1), nd.read legacyBackend (.num 2) (.nonce 1),
+                nd.read legacyBackend (.num 0) (.classHash 2), nd.read legacyBackend (.num 2) (.nonce 2),
+                nd.read legacyBackend .head (.classHash 2)]) =
+    some [some (.ok 0), some (.ok 0), some .notfound, some (.ok 0), some (.ok 0)] := by decide
 
 example : (run (newBackend Cfg.current) (Node.init (newBackend Cfg.current)) systemHistory).map
     (fun nd => [nd.read (newBackend Cfg.current) (.num 0) (.storage 1 2),
